@@ -12,8 +12,9 @@
 //! symbols.  A difference is a violation only if the property itself fails on the real result (judged by
 //! `property_failures`: a small interpreter + definition check in Rust), otherwise a divergence.
 //!
-//! Provisional finding `wrap-in-loop-ignores-counter-index` (see known_findings.d/C33.json): with a
-//! counter reference whose index is not 0 the SUB still addresses index 0, so the loop never ends.
+//! Counter references with index 0, 1 and 2 are part of the model's and the driver's cases: this guards fix
+//! f30d5a1 (before it the SUB always addressed <counter>[0] and the region was declared with length 1, so
+//! with an index other than 0 the loop never ended; known_findings.d/C33.json, status fixed).
 
 use crate::abs::target_name;
 use crate::runner::{Outcome, Summary, Violation};
@@ -27,8 +28,6 @@ use quil_rs::Program;
 use rand::seq::SliceRandom;
 use rand::Rng;
 use serde_json::{json, Value};
-
-pub const FINDING_INDEX: &str = "wrap-in-loop-ignores-counter-index";
 
 /// abstraction of one instruction of a (wrapped) body; `ctr` is the name of the counter region
 pub fn export(i: &Instruction, ctr: &str) -> Value {
@@ -94,10 +93,11 @@ fn def_json(i: &Instruction) -> Value {
     json!({"key": key_of(i), "text": i.to_quil_or_debug(), "sec": section_of(i)})
 }
 
-fn counter_decl(ctr: &str) -> Value {
+/// the declaration wrap_in_loop is expected to add: an INTEGER region long enough to hold cell `cell`
+fn counter_decl(ctr: &str, cell: u64) -> Value {
     let d = Instruction::Declaration(Declaration {
         name: ctr.to_string(),
-        size: Vector { data_type: ScalarType::Integer, length: 1 },
+        size: Vector { data_type: ScalarType::Integer, length: cell + 1 },
         sharing: None,
     });
     def_json(&d)
@@ -190,7 +190,7 @@ fn wrap(p: &Program, ctr: &str, cell: u64, label: Target, n: u64) -> Wrapped {
 impl Wrapped {
     fn record(&self) -> Value {
         json!({"ev": "reset", "n": self.n, "cell": self.cell, "label": self.label, "body": self.body, "defs": self.defs,
-               "wrapped": self.wrapped, "wdefs": self.wdefs, "decl": counter_decl(&self.ctr)})
+               "wrapped": self.wrapped, "wdefs": self.wdefs, "decl": counter_decl(&self.ctr, self.cell)})
     }
 }
 
@@ -222,24 +222,13 @@ fn property_failures(w: &Wrapped) -> Vec<(String, Value, Value)> {
     fails
 }
 
-/// the as-built shape of the provisional finding: MOVE and JUMP-WHEN on the handed-in cell (not 0), SUB on cell 0
-fn is_index_finding(w: &Wrapped) -> bool {
-    w.cell != 0
-        && w.n >= 2
-        && w.wrapped.iter().any(|i| i["k"] == "Arith" && i["cell"] == 0)
-        && w.wrapped.iter().any(|i| i["k"] == "Move" && i["cell"] == w.cell)
-        && w.wrapped.iter().any(|i| i["k"] == "JumpWhen" && i["cell"] == w.cell)
-}
-
 fn report(o: &mut Outcome, w: &Wrapped, what: &str) -> bool {
     let fails = property_failures(w);
     for (obs, want, got) in &fails {
-        let mut v = Violation::new(obs, want.clone(), got.clone())
-            .note(format!("{what}: n = {}, counter {}[{}], wrapped listing {}", w.n, w.ctr, w.cell, json!(w.wrapped)));
-        if obs == "termination" && is_index_finding(w) {
-            v = v.finding(FINDING_INDEX);
-        }
-        o.violate(v);
+        o.violate(
+            Violation::new(obs, want.clone(), got.clone())
+                .note(format!("{what}: n = {}, counter {}[{}], wrapped listing {}", w.n, w.ctr, w.cell, json!(w.wrapped))),
+        );
     }
     fails.is_empty()
 }
@@ -299,8 +288,8 @@ pub fn replay(_ctx: &Ctx, case: &Value) -> Outcome {
                 json!(w.wrapped)
             ));
         }
-        if holds && w.n >= 2 && !w.wdefs.contains(&counter_decl(ctr)) {
-            o.diverge(format!("palette {pi}: the counter is not declared INTEGER[1]: {}", json!(w.wdefs)));
+        if holds && w.n >= 2 && !w.wdefs.contains(&counter_decl(ctr, cell)) {
+            o.diverge(format!("palette {pi}: the counter is not declared INTEGER[{}]: {}", cell + 1, json!(w.wdefs)));
         }
     }
     o
@@ -383,13 +372,14 @@ pub fn drive(ctx: &Ctx) -> Summary {
         } else {
             Target::Fixed(label_name)
         };
-        let w = wrap(&p, ctr, 0, label, n);
+        let cell = if h % 2 == 0 { 0 } else { rng.gen_range(0..=2u64) };
+        let w = wrap(&p, ctr, cell, label, n);
         let rec = w.record();
         util::emit(&mut out, &rec);
         let mut o = Outcome::ok(n >= 2 && len > 0);
         o.count("events");
         o.count_n("exported_instructions", w.wrapped.len() as u64);
-        let case = json!({"n": n, "body": w.body.iter().map(|i| i["text"].clone()).collect::<Vec<_>>(), "ndefs": w.defs.len()});
+        let case = json!({"n": n, "cell": cell, "body": w.body.iter().map(|i| i["text"].clone()).collect::<Vec<_>>(), "ndefs": w.defs.len()});
         let distinct = seen.insert(case.to_string());
         sum.absorb(&case, &o, distinct);
     }
